@@ -50,3 +50,71 @@ Lemma run_async_is_drive_async : forall lines tail chunks,
   | StPanic t => Panic t
   end.
 Proof. intros. rewrite iter_tr_async_run. reflexivity. Qed.
+
+(* ------------------------------------------------------------------ round 5: the traced byte-level run is the byte-level run *)
+From RM Require Import C09.Circular.
+From Coq Require Import Lia.
+
+Local Notation cbiter := (biter rle cllen pst recog_pst bump_pst lineno_pst).
+
+Lemma biter_add : forall a b x,
+  cbiter (a + b)%nat x = match cbiter a x with BNext x1 => cbiter b x1 | r => r end.
+Proof.
+  induction a as [|a IH]; intros b x; cbn [biter Nat.add]; [reflexivity|].
+  destruct (bstep rle cllen pst recog_pst bump_pst lineno_pst x); try reflexivity. apply IH.
+Qed.
+
+Lemma biter_tr_run : forall p x h, fst (biter_tr p x h) = cbiter (Pos.to_nat p) x.
+Proof.
+  induction p as [q IH|q IH|]; intros x h; cbn [biter_tr].
+  - rewrite Pos2Nat.inj_xI. replace (S (2 * Pos.to_nat q))%nat with (1 + (Pos.to_nat q + Pos.to_nat q))%nat by lia.
+    rewrite biter_add. cbn [biter]. unfold cbstep.
+    destruct (bstep rle cllen pst recog_pst bump_pst lineno_pst x) as [x1|r x1|t]; try reflexivity.
+    rewrite biter_add. pose proof (IH x1 (spy_step h x)) as H1.
+    destruct (biter_tr q x1 (spy_step h x)) as [r1 h1]. cbn [fst] in H1. rewrite <- H1.
+    destruct r1 as [x2|r2 x2|t2]; try reflexivity. apply IH.
+  - rewrite Pos2Nat.inj_xO. replace (2 * Pos.to_nat q)%nat with (Pos.to_nat q + Pos.to_nat q)%nat by lia.
+    rewrite biter_add. pose proof (IH x h) as H1.
+    destruct (biter_tr q x h) as [r1 h1]. cbn [fst] in H1. rewrite <- H1.
+    destruct r1 as [x2|r2 x2|t2]; try reflexivity. apply IH.
+  - rewrite Pos2Nat.inj_1. cbn [biter fst]. unfold cbstep.
+    destruct (bstep rle cllen pst recog_pst bump_pst lineno_pst x); reflexivity.
+Qed.
+
+From RM Require Import C09.Proofs C09.ProofsBytes C09.ProofsCircular.
+
+Lemma list_eqb_refl : forall l, list_eqb l l = true.
+Proof. induction l as [|x t IH]; [reflexivity|]. cbn [list_eqb]. rewrite Z.eqb_refl. exact IH. Qed.
+
+(* what the correspondence run prints for the byte-level run is the outcome of [drive_c]; the callback bytes are the
+   input's prefix of that length; data() holds what the index model says is left *)
+Lemma run_bytes_is_drive : forall lines tail sch inp,
+  zlength inp = input_len rle cllen lines tail ->
+  exists r s, drive_c lines tail sch = Ret (r, s) /\
+    let bo := run_bytes lines tail sch inp in
+    (bo_kind bo, bo_code bo, bo_line bo) = match r with ROk _ => (0, 0, 0) | RErr c l => (1, c, l) end /\
+    bo_cb bo = cbsum s /\ bo_cbok bo = true /\ bo_left bo = avail (buf s).
+Proof.
+  intros lines tail sch inp H.
+  destruct (drive_fin rle cllen pst init_pst recog_pst bump_pst lineno_pst cllen_pos lines tail sch) as [r [s [D _]]].
+  exists r, s. split; [exact D|].
+  unfold drive in D.
+  pose proof (reach_inv rle cllen pst init_pst recog_pst bump_pst lineno_pst cllen_pos lines tail sch inp
+                        (fuel_for rle cllen lines tail) H) as R. cbv zeta in R.
+  destruct (iter_pos rle cllen pst recog_pst bump_pst lineno_pst (fuel_for rle cllen lines tail)
+                     (init_st rle cllen pst init_pst lines tail sch)) as [s1|r1 s1|t1]; try discriminate.
+  inversion D; subst r1 s1. clear D.
+  destruct R as [x [B [E [I W]]]].
+  unfold run_bytes. rewrite H, Z.eqb_refl. cbn [negb].
+  pose proof (biter_tr_run (fuel_for rle cllen lines tail)
+                           (binit rle pst (init_st rle cllen pst init_pst lines tail sch) inp) MIX_INIT) as T.
+  rewrite B in T.
+  destruct (biter_tr (fuel_for rle cllen lines tail)
+                     (binit rle pst (init_st rle cllen pst init_pst lines tail sch) inp) MIX_INIT) as [res h].
+  cbn [fst] in T. subst res. destruct I as [I1 I2 I3 I4 I5].
+  destruct (app3_slices _ _ _ _ _ I3) as [A _].
+  assert (K : list_eqb (x_cb x) (zfirstn (zlength (x_cb x)) inp) = true) by (rewrite <- A; apply list_eqb_refl).
+  pose proof (bdata_length _ I2) as HL. rewrite <- avail_idx, I1, E in HL. rewrite E in I5.
+  destruct r as [p|c l]; cbv zeta; cbn [bo_kind bo_code bo_line bo_cb bo_cbok bo_left];
+    (split; [reflexivity|split; [exact I5|split; [exact K|exact HL]]]).
+Qed.
